@@ -111,7 +111,53 @@ def const_value(ctx, fi: FuncInfo, e: ast.expr):
                     return self.generic_visit(node)
             import copy
             e = ast.fix_missing_locations(Sub().visit(copy.deepcopy(e)))
+    # a parameter of fi with a constant default that no call in the repository passes has that default
+    for nm, val in unpassed_defaults(ctx, fi).items():
+        if any(isinstance(n, ast.Name) and n.id == nm for n in ast.walk(e)):
+            env[nm] = val
     return ConstEval(ctx.repo, fi.module).eval(e, env)
+
+
+def unpassed_defaults(ctx, fi: FuncInfo) -> dict:
+    """{parameter: value} for the parameters of fi whose default is a constant (a literal or a module-level constant name) and
+    that no call site in the repository passes (by position, by keyword, or through * / **): inside fi they hold that value.
+    A function that is never called in the repository (a public entry) is taken as called with its defaults as well, since
+    the properties speak about the library as its own callers use it."""
+    cache = ctx.cache.setdefault("unpassed_defaults", {})
+    if fi.fq in cache:
+        return cache[fi.fq]
+    cache[fi.fq] = {}
+    from ..model import ConstEval, NotConst
+    a = fi.node.args
+    pos = [x.arg for x in a.posonlyargs + a.args]
+    dflt = dict(zip(pos[len(pos) - len(a.defaults):], a.defaults))
+    dflt.update({x.arg: d for x, d in zip(a.kwonlyargs, a.kw_defaults) if d is not None})
+    out = {}
+    if dflt:
+        off = 1 if fi.cls is not None and pos and pos[0] in ("self", "cls") else 0
+        for nm, d in dflt.items():
+            if not isinstance(d, (ast.Constant, ast.Name, ast.Attribute)):
+                continue
+            try:
+                val = ConstEval(ctx.repo, fi.module).eval(d, {})
+            except (NameError, UnboundLocalError):
+                raise
+            except Exception:
+                continue
+            if not isinstance(val, (str, int, float, bool, type(None), tuple, frozenset)):
+                continue
+            passed = False
+            for g in ctx.cg.funcs.values():
+                for cs in ctx.cg.sites.get(g.fq, []):
+                    if cs.kind == "tucan" and cs.target.fq == fi.fq:
+                        if any(k.arg == nm or k.arg is None for k in cs.node.keywords) or any(isinstance(x, ast.Starred) for x in cs.node.args) \
+                                or (nm in pos and len(cs.node.args) > pos.index(nm) - off):
+                            passed = True
+            # handed on as a value (map(f, ..), key=f): what it is called with is not seen
+            if not passed:
+                out[nm] = val
+    cache[fi.fq] = out
+    return out
 
 
 def try_const(ctx, fi: FuncInfo, e: ast.expr, default=None):
